@@ -1141,6 +1141,13 @@ def n5(prog, rep, up, L):
                 if comp and b.succs[1] is not None and (comp[0].block.id == b.succs[1] or comp[0].block.id in f.reach_from(b.id)) \
                         and b.id in f.dominators().get(comp[0].block.id, ()):
                     guard = True
+    if comp and not guard:
+        # the same test written from the other side (`if (bufpos >= minlen) complete`): what matters is what controls the completion
+        for cond, truth in f.edge_conds(comp[0]):
+            for op, Lh, R, _, _ in cond_atoms(cond, truth):
+                if (op == ">=" and fieldpath(strip_ids(Lh), "bufpos") and fieldpath(strip_ids(R), "minlen")) or \
+                        (op == "<=" and fieldpath(strip_ids(Lh), "minlen") and fieldpath(strip_ids(R), "bufpos")):
+                    guard = True
     rep.check(okc and guard, "N5", "completion reports bufpos once minlen is reached", f.loc,
               "the success completion must pass bufpos and be dominated by the false edge of bufpos < minlen",
               function=f.name, construct="completion")
